@@ -42,6 +42,7 @@ def base_coverage(agg, sc, rule, wall, extra=None):
             "map_permutation_non_identity": agg.stats.get("map_permuted", 0),
             "forced_stage_error": agg.stats.get("fail_fired", 0),
             "lock_contention_yield": agg.stats.get("lock_blocked", 0),
+            "forced_handoff_from_task_blocked_on_library_sync(degraded_mode)": agg.stats.get("forced_handoffs_from_blocked_task", 0),
         },
         "probes": agg.probes,
         "distinct_interleavings": len(agg.schedsigs),
@@ -288,6 +289,12 @@ def check_c04(tier, seed):
     cli = c04_cli(sc, simacv, clidir, seed, tier)
     viols += cli["violations"]
 
+    # concurrent half (engine A): several tasks validate the same unreadable document at once
+    agg = vlib.run_engine_a(sc, harness, "c04", tier, seed, 96 if tier == "quick" else 3000, 8 if tier == "quick" else 25, vlib.NCPU)
+    if agg.harness:
+        raise HarnessError("reference computation failed: " + agg.harness[0]["harness_error"][:1000])
+    nviol_conc = vlib.report_violations_a("C04", sc, harness, agg)
+
     known = vlib.load_known("C04")
     rdir = vlib.out_dir("replays")
     by_sig = {}
@@ -317,11 +324,12 @@ def check_c04(tier, seed):
         print("VIOLATION property=C04 replay=%s" % path, flush=True)
         log("  %s entry=%s fault=%s doc=%s: %s [%s] (%d occurrences)" % (sig, v["entry"], v["fault"], v["data"], v["detail"], v.get("reason", ""), len(vs)))
         nviol += 1
+    nviol += nviol_conc
     wall = time.time() - t0
-    evals = sum(inj.values()) + cli["invocations"]
+    evals = sum(inj.values()) + cli["invocations"] + agg.runs
     cov = {
         "evaluations": evals,
-        "distinct_nontrivial": distinct + cli["unreadable_invocations"],
+        "distinct_nontrivial": distinct + cli["unreadable_invocations"] + len(agg.sigs),
         "rule": ("each valid data fixture is the intended content of the stored document; one storage fault is injected before the consumer reads it: torn write at EVERY byte offset (lost write = offset 0), "
                  "flipped stored bit (biased to structural characters), transcoding (UTF-16LE/BE, BOM, Latin-1), misdirected read (sibling RAML/YAML/Rego/profile), plus structural corruptions JSON-LD must reject. "
                  "Oracle computed by the driver: unreadable(T) = json.Decoder cannot decode a first value or json-gold Flatten rejects it; then every entry point must return err != nil and an empty report, no panic; "
@@ -332,6 +340,8 @@ def check_c04(tier, seed):
         "fault_kinds_fired": inj, "faults_that_made_the_document_unreadable": unr, "faults_absorbed_still_readable": absb, "undecided_jsonld_panicked": und,
         "library_calls_on_unreadable_texts": calls, "library_violations_total": n_lib_viol,
         "cli": {k: v for k, v in cli.items() if k != "violations"},
+        "concurrent_runs": {"runs": agg.runs, "task_switches": agg.stats.get("switches", 0), "unreadable_concurrent_calls": agg.probes.get("unreadable_concurrent_call", 0),
+                            "distinct_interleavings": len(agg.schedsigs), "sample": agg.samples[:1]},
         "runs_per_hour": int(evals / wall * 3600), "seeds_per_hour": int(evals / wall * 3600),
         "simulated_time": {"unit": "not applicable (no clock in this property)", "value": 0},
         "entry_points": ["Validate", "ValidateWithConfiguration", "ValidateCompiled", "ValidateCompiledWithConfiguration", "each with and without an event channel", "acv validate P D", "acv validate P D OUT"],
@@ -643,20 +653,28 @@ def check_c11(tier, seed):
         r, text = min(items, key=lambda x: x[0]["steps"])
         cell = dict(r["cell"], choices=r["choices"], dts=r["dts"])
         simple = dict(r["cell"], choices=[0] * (r["steps"] + 8), dts=[1] * (r["steps"] + 8))
-        chosen = None
+        # Repo code with `select` statements (none on the unchanged tree) has a source of nondeterminism the
+        # simulator does not own: when several cases are ready Go picks one at random. Then the same decisions
+        # need not reproduce the same run; the observed violation is still real, so it is reported when it
+        # recurs in at least one of six re-executions, and the replay file says so.
+        flaky_ok = bool(sc.census.get("selects"))
+        attempts = 6 if flaky_ok else 2
+        chosen, best = None, 0
         for cand in (simple, cell):
             ok = 0
-            for _ in range(2):
+            for _ in range(attempts):
                 rr = c11.run_bubbles(sc, testbin, dict(job, replay=cand), 1)
                 if rr and any(("%s:%s:%s" % (cls, sd, rr[0]["cell"]["failure"]["id"])) == sig for cls, sd, _ in c11.judge(rr[0], ff.get(cand["entry"]), sc.census["operations"], ffsteps.get((cand["entry"], cand["consumer"], cand["cap"])))):
                     ok += 1
-            if ok == 2:
-                chosen = cand
-                break
+            if ok == attempts or (flaky_ok and ok > best):
+                chosen, best = cand, ok
+                if ok == attempts:
+                    break
         if chosen is None:
             raise HarnessError("C11 violation %s does not replay from its recorded decisions" % sig)
         rf = {"property": "C11", "engine": "B-bubble", "seed": seed, "tree": sc.tree_hash, "cell": chosen, "violation": {"class": sig.split(":")[0], "sig": sig, "detail": text},
-              "events": r["events"], "returned": r.get("returned"), "replays": {"attempts": 2, "recurred": 2}}
+              "events": r["events"], "returned": r.get("returned"), "replays": {"attempts": attempts, "recurred": best,
+              "note": "select statements in repo code: Go's random choice among ready cases is not owned by the simulator" if flaky_ok else "exact"}}
         path = os.path.join(rdir, "C11-%s.json" % hashlib.sha256(sig.encode()).hexdigest()[:10])
         json.dump(rf, open(path, "w"), indent=1)
         print("VIOLATION property=C11 replay=%s" % path, flush=True)
